@@ -36,14 +36,19 @@ FAMILIES = {
                  MaxNodes=3, MaxObs=1, MaxActs=8, MaxRounds=3),
     # observers, clones, subscriptions
     "obs_s": fam(Ctors=["var", "map"], Fs1=["id", "const0"], MaxNodes=2, MaxObs=2, MaxSubs=2, MaxActs=9, MaxRounds=3),
+    # observer clones, handlers that drop their own observer / write vars / subscribe elsewhere
+    "obsfx_s": fam(Ctors=["var", "map", "clone"], Fs1=["id"], Effs=["h_drop", "h_set", "h_sub"], MaxNodes=2, MaxObs=2, MaxSubs=2,
+                   MaxActs=8, MaxRounds=3),
+    # bind whose new right-hand side is built on its old one (and back)
+    "bindalt_s": fam(Ctors=["var", "map", "bind"], RecipeKinds=["altmap"], MaxVars=1, MaxNodes=4, MaxObs=1, MaxActs=9, MaxRounds=3, MaxH=16),
     # var write operations
     "var_s": fam(Ctors=["var", "map"], Fs1=["id"], Ops=["set", "update", "modify", "replace", "replace_with"],
                  MaxNodes=3, MaxObs=2, MaxActs=9, MaxRounds=3),
     # user functions that panic at their k-th run: crash-point enumeration (C13)
     "panic_s": fam(Ctors=["var", "map", "map2"], Fs1=["id"], Effs=["panic"], MaxNodes=3, MaxObs=2, MaxActs=8, MaxRounds=3),
     # user functions that write vars / read observers while stabilising (C08, C07)
-    "eff_s": fam(Ctors=["var", "map"], Fs1=["id"], Effs=["set", "read"], Ops=["set", "update"],
-                 MaxVars=2, MaxNodes=3, MaxObs=1, MaxActs=7, MaxRounds=3),
+    "eff_s": fam(Ctors=["var", "map", "drop"], Fs1=["id"], Effs=["set", "read", "set_drop"], Ops=["set", "update"],
+                 MaxVars=2, MaxNodes=3, MaxObs=1, MaxActs=6, MaxRounds=3),
     # ownership: every order of dropping handles / vars / observers around stabilises (C12)
     "own_s": fam(Ctors=["var", "map", "map2", "drop"], Fs1=["id"], MaxVars=2, MaxNodes=3, MaxObs=1, MaxActs=8, MaxRounds=3),
     "ownbind_s": fam(Ctors=["var", "bind", "drop"], RecipeKinds=["map", "pick"], MaxVars=2, MaxNodes=4, MaxObs=1, MaxActs=9, MaxRounds=3, MaxH=16),
@@ -73,7 +78,8 @@ FAMILIES["pick_q"] = dict(FAMILIES["pick_s"], MaxActs=8)
 # keep the exported sample of behaviours around 50-80k per family (TLC still visits every state)
 for _n, _mod in dict(bind_s=2, leak_s=2, nest_s=3, ref_s=4, mwo_s=6, cut_s=5, pick_s=6, pick_q=3, xjoin_s=3, xsum_s=2,
                      bind_m=40, leak_m=12, nest_m=15, ref_m=20, mwo_m=30, cut_m=25, pick_m=30, xjoin_m=15, xsum_m=10,
-                     core_m=10, obs_m=6, var_m=2).items():
+                     core_m=10, obs_m=6, var_m=2, obsfx_s=4, eff_s=2, own_s=2, ownbind_s=3, panic_s=2, cycle_s=3,
+                     obsfx_m=20, eff_m=10, own_m=10, ownbind_m=15, panic_m=10, cycle_m=15, memo_m=5, height_m=4, bindalt_m=3).items():
     FAMILIES[_n]["ExportMod"] = _mod
 
 
@@ -87,16 +93,16 @@ PROPS = {
     "C01": dict(families=plan("core_s", "ref_s", "pick_q"), random=RND),
     "C02": dict(random=RND, families=plan("bind_s", "nest_s")),
     "C03": dict(random=RND, families=plan("leak_s", "bind_s")),
-    "C04": dict(families=plan("leak_s", "xjoin_s"), profiles=["debug", "release"], random=dict(quick=24, thorough=300, len=40)),
-    "C05": dict(random=RND, families=plan("obs_s", "pick_q")),
+    "C04": dict(families=plan("leak_s", "xjoin_s", "obsfx_s"), profiles=["debug", "release"], random=dict(quick=24, thorough=300, len=40)),
+    "C05": dict(random=RND, families=plan("obs_s", "obsfx_s", "pick_q")),
     "C06": dict(random=RND, families=plan("cut_s", "mwo_s")),
     "C07": dict(random=RND, families=plan("obs_s", "eff_s")),
-    "C08": dict(random=RND, families=plan("var_s", "eff_s")),
-    "C09": dict(random=RND, families=plan("obs_s")),
-    "C10": dict(random=RND, families=plan("obs_s")),
+    "C08": dict(random=RND, families=plan("var_s", "eff_s", "obsfx_s")),
+    "C09": dict(random=RND, families=plan("obs_s", "obsfx_s")),
+    "C10": dict(random=RND, families=plan("obs_s", "obsfx_s")),
     # thorough additionally audits the snapshots of the repository's own 74 tests (stage_owntests)
-    "C11": dict(random=RND, families=plan("obs_s", "bind_s"), stage_modules_thorough=["stage_owntests"]),
-    "C12": dict(random=RND, families=plan("own_s", "ownbind_s")),
+    "C11": dict(random=RND, families=plan("obs_s", "bind_s", "bindalt_s"), stage_modules_thorough=["stage_owntests"]),
+    "C12": dict(random=RND, families=plan("own_s", "ownbind_s", "obsfx_s", "eff_s")),
     "C13": dict(families=plan("panic_s"), profiles=["debug", "release"]),
     "C14": dict(families=plan("xjoin_s", "xsum_s")),
     "C15": dict(stage_modules=["stage_mapops"]),
